@@ -147,6 +147,34 @@ Proof.
     apply respond_in in H. tauto.
 Qed.
 
+(* history level: the forwarded bytes of every request of a history depend on that request only *)
+Definition fwd_payload (r : bytes * bytes * bytes) : bytes :=
+  let '(_, ch, body) := r in write_utf ch ++ write_u16 (N.of_nat (len body)) ++ body.
+Definition fwd_request (r : bytes * bytes * bytes) : bytes :=
+  let '(tg, _, _) := r in write_utf (sub_name SForward) ++ write_utf tg ++ fwd_payload r.
+Definition fwd_ok (r : bytes * bytes * bytes) : Prop :=
+  let '(tg, ch, body) := r in
+  N.of_nat (len tg) < 65536 /\ N.of_nat (len ch) < 65536 /\ N.of_nat (len body) < 32768.
+
+Lemma parse_sub_Forward : parse_sub (sub_name SForward) = SForward.
+Proof. vm_compute. reflexivity. Qed.
+
+Lemma forward_unchanged_history_proof : forall st req oracle rs,
+  Forall fwd_ok rs ->
+  Forall2 (fun r o => fst o = true /\ forall sv d, In (EForward sv d) (snd o) -> d = fwd_payload r)
+          rs (model_history all_fixed st req oracle s_BungeeCord (map fwd_request rs)).
+Proof.
+  intros st req oracle rs H. unfold model_history. induction rs as [|r rs IH]; cbn [map]; constructor.
+  - inversion H as [|? ? Hr _]; subst. destruct r as [[tg ch] body]. destruct Hr as (Ht & Hc & Hb).
+    unfold model. change (eq_fold s_bungeecord_main s_BungeeCord || eq_fold s_BungeeCord s_BungeeCord) with true.
+    cbn [fwd_request]. rewrite read_utf_write by (vm_compute; reflexivity).
+    rewrite parse_sub_Forward. cbn [fst snd]. split; [reflexivity|].
+    intros sv d Hin.
+    destruct (forward_unchanged_proof st req oracle tg ch body Ht Hc Hb) as (_ & A & _).
+    exact (A sv d Hin).
+  - apply IH. inversion H; assumption.
+Qed.
+
 Definition forwarded_to (es : list effect) : list bytes :=
   flat_map (fun e => match e with EForward sv _ => [sv] | _ => [] end) es.
 
